@@ -33,6 +33,24 @@ impl Exec {
       Exec::AnyFifo => world::run_fifo_until_stalled(48),
     }
   }
+  /// executor activity at an optional run point: nothing, everything that is ready, or (ANY
+  /// executor only) a single chosen ready task - a pool whose other workers are running late
+  pub fn run_optional(&mut self) -> bool {
+    let partial = matches!(self, Exec::Any) && !world::ready_tasks().is_empty();
+    match e::choose(if partial { 3 } else { 2 }) {
+      0 => false,
+      1 => {
+        self.run();
+        true
+      }
+      _ => {
+        let r = world::ready_tasks();
+        let k = e::choose(r.len() as u32) as usize;
+        world::poll_task(r[k]);
+        true
+      }
+    }
+  }
   pub fn name(&self) -> &'static str {
     match self {
       Exec::Pool(_) => "LocalPool(FIFO)",
@@ -220,8 +238,7 @@ pub(crate) fn c07_run(threads_form: bool, max_items: u32, do_cut: bool) {
         world::advance(gap);
         cut_point(exec);
       }
-      if e::choose_bool() {
-        exec.run();
+      if exec.run_optional() {
         cut_point(exec);
       }
       let h = if threads_form { cat::feed_hot_t(0, ev) } else { cat::feed_hot(0, ev) };
@@ -1394,8 +1411,7 @@ fn c02_sched_more(max_items: u32) {
       world::advance(gap);
       cut_point(exec);
     }
-    if e::choose_bool() {
-      exec.run();
+    if exec.run_optional() {
       cut_point(exec);
     }
     if let Some(mut h) = cat::handle_nth(0, 0) {
